@@ -8,12 +8,12 @@ LEVEL_TEXT = (
     '"this intermediate fits its Rust type (i32/u32/i64/u64/usize), this divisor is not zero, this debug_assert holds" for every arithmetic '
     'site of f and of the callees it reaches. coq/Properties/C08.v proves (lia/nia, no axioms) C08_<f>_total: f_ok = true for ALL '
     'display-scale inputs (|coordinate| <= 1024, extents <= 1024, stroke widths and offsets <= 128, edge lines of thick segments within '
-    '+-1280, mono fonts up to 64 px cells and 65536 characters, line heights <= 1024 px / 400 %) for Point/Size/Rectangle operations, '
+    '+-1800, mono fonts up to 64 px cells and 65536 characters, line heights <= 1024 px / 400 %) for Point/Size/Rectangle operations, '
     'PrimitiveStyle stroke/fill areas, Circle/Ellipse contains + center_2x + thresholds + offset, EllipseQuadrant, CornerRadii::confine, '
     'Line delta/perpendicular/midpoint, BresenhamParameters, the complete Line::points loop (exactly major_length <= 2049 steps), '
     'increase/decrease_error, next_all/previous_all and ParallelsIterator::next per step with inductive invariants, '
     'ParallelsIterator::new / ThickPoints::new (i64 threshold), LinearEquation, IntersectionParams (i64 numerators, round_div), the join '
-    'points (|coordinate| <= 13108481 proved: SaturatingAs never saturates, `intersection - mid` cannot overflow) and the miter test, Triangle area_doubled / contains (whole path), mono text layout (baseline offset, measure_string, draw_string, line advance), '
+    'points (|coordinate| <= 25921801 proved: SaturatingAs never saturates, `intersection - mid` cannot overflow) and the miter test, Triangle area_doubled / contains (whole path), mono text layout (baseline offset, measure_string, draw_string, line advance), '
     'LineHeight, ImageRaw bytes_per_row / data_width / draw / draw_sub_image / pixel, ContiguousPixels (every step safe; stops after '
     'exactly w*h+1 calls) and Cropped. Tie 1 (translator): translate/gen_arith.py regenerates from the tree under test the '
     'identifier-free skeleton of every arithmetic / cast / index / unwrap site of every non-test function of 22 source files; '
@@ -43,7 +43,7 @@ RULE = ('correspondence ok_*: f_ok (model) vs panic / no panic (implementation, 
         'again on the fixed_point build (p_fixed_point lines).')
 ASSUMPTIONS = ['display scale as stated in each theorem (ds_* / edge_* predicates of coq/Model/Overflow.v); outside it f_ok may be false '
                '(and the code then panics with overflow checks: the correspondence suites exercise exactly that)',
-               'the join theorems (C08_join_edges_total ...) take the four edge lines of the thick segments as inputs, within +-1280 '
+               'the join theorems (C08_join_edges_total ...) take the four edge lines of the thick segments as inputs, within +-1800 '
                '(= display scale + twice the maximal stroke width); that Line::extents stays in this range is not proved']
 TRUSTED = ['translate/gen_arith.py (tokeniser-level skeletons; operands are not compared, only the shape of the arithmetic)',
            'the mapping function -> predicate in translate/record_skeletons.py / the `recorded` table is maintained by hand',
